@@ -288,7 +288,7 @@ def _residual_facts(fn: ast.FunctionDef | None, sim_call: str) -> dict[str, str]
 
 def _wrapper_facts(fn: ast.FunctionDef | None, residual_name: str, extra_setting: str | None) -> dict[str, str]:
     out = {"copy_default": "false", "copy_guard": "false", "scale_default": "false", "routing": "false", "pack": "false",
-           "default_loss": "none", "default_residual": "false"}
+           "default_loss": "none", "default_residual": "false", "pre_copy": "[]"}
     if fn is None:
         return out
     kw = {a.arg: (None if d is None else ast.unparse(d)) for a, d in zip(fn.args.kwonlyargs, fn.args.kw_defaults)}
@@ -297,9 +297,21 @@ def _wrapper_facts(fn: ast.FunctionDef | None, residual_name: str, extra_setting
     out["default_loss"] = (kw.get("loss_fn") or "none").replace("losses.", "")
     out["default_residual"] = "true" if kw.get("residual_fn") == residual_name else "false"
     body = _strip_doc(fn.body)
-    if body and ast.unparse(body[0]) == "if as_deepcopy:\n    model = deepcopy(model)":
-        # the guard must be the FIRST statement: nothing touches the caller's model before the copy
-        out["copy_guard"] = "true"
+    # the copy guard, and what runs on the CALLER's object in front of it: nothing in the shipped code; the only
+    # recognised statement is an early `model.update_variables(y0)` (modelled as the phase UpdY0); anything else
+    # in front of the guard is an unrecognised shape (copy_guard = false)
+    guard_at = next((i for i, st in enumerate(body) if ast.unparse(st) == "if as_deepcopy:\n    model = deepcopy(model)"), None)
+    if guard_at is not None:
+        pre = []
+        for st in body[:guard_at]:
+            if ast.unparse(st) in ("if y0 is not None:\n    model.update_variables(y0)", "if (y0 := y0) is not None:\n    model.update_variables(y0)"):
+                pre.append("UpdY0")
+            else:
+                pre = None
+                break
+        if pre is not None:
+            out["copy_guard"] = "true"
+            out["pre_copy"] = "[" + "; ".join(pre) + "]"
     txt = "\n".join(ast.unparse(s) for s in body).replace(" ", "").replace("\n", "")
     settings = (
         "fn:MinimizerResidual=partial(residual_fn,settings=_Settings(model=model,data=data,y0=y0,integrator=integrator,"
@@ -365,6 +377,56 @@ def _scipy_facts(tree: ast.AST) -> dict[str, str]:
     return out
 
 
+_CHECK_KNOWN = (
+    "seen: set[str] = set()\nfor name in names:\n    if name not in container or (unique and name in seen):\n"
+    "        msg = f'{name!r} not found in {ctx}'\n        raise KeyError(msg)\n    seen.add(name)"
+)
+
+
+def _batch_mode(tree: ast.AST, meth: str, arg: str, container: str) -> str:
+    """Shape of the batch editor Model.<meth>: BatchFold = only the loop over the single-item editor; BatchValidated =
+    `self._check_known_names(<arg>, self.<container>, ctx=..., unique=False)` (whose body must be the recognised
+    all-names check raising KeyError) in front of that loop; anything else BatchUnknown."""
+    cls = _find(tree, "Model", ast.ClassDef)
+    if cls is None:
+        return "BatchUnknown"
+    fns = {n.name: n for n in cls.body if isinstance(n, ast.FunctionDef)}
+    fn = fns.get(meth)
+    if fn is None or [a.arg for a in fn.args.args] != ["self", arg]:
+        return "BatchUnknown"
+    body = _strip_doc(fn.body)
+    if not body or ast.unparse(body[-1]) != "return self":
+        return "BatchUnknown"
+    body = body[:-1]
+    single = meth[:-1]  # update_variable / update_parameter
+    loop_ok = (
+        len(body) >= 1
+        and isinstance(body[-1], ast.For)
+        and ast.unparse(body[-1].target) == "(k, v)"
+        and ast.unparse(body[-1].iter) == f"{arg}.items()"
+        and f"self.{single}(k, v)" in ast.unparse(body[-1])
+    )
+    if not loop_ok:
+        return "BatchUnknown"
+    if len(body) == 1:
+        return "BatchFold"
+    if len(body) == 2 and isinstance(body[0], ast.Expr) and isinstance(body[0].value, ast.Call):
+        c = body[0].value
+        kws = {k.arg: ast.unparse(k.value) for k in c.keywords}
+        chk = fns.get("_check_known_names")
+        if (
+            ast.unparse(c.func) == "self._check_known_names"
+            and [ast.unparse(a) for a in c.args] == [arg, f"self.{container}"]
+            and kws.get("unique") == "False"
+            and set(kws) == {"ctx", "unique"}
+            and chk is not None
+            and [a.arg for a in chk.args.args] == ["names", "container"]
+            and "\n".join(ast.unparse(x) for x in _strip_doc(chk.body)) == _CHECK_KNOWN
+        ):
+            return "BatchValidated"
+    return "BatchUnknown"
+
+
 def extract_fit_facts() -> tuple[str, dict]:
     src = common.REPO / "src/mxlpy"
     t_abs = ast.parse((src / "fit/abstract.py").read_text())
@@ -390,6 +452,10 @@ def extract_fit_facts() -> tuple[str, dict]:
     facts["wrapper"] = wr
     sc = _scipy_facts(t_sci)
     facts["scipy"] = sc
+    t_mod = ast.parse((src / "model.py").read_text())
+    bm = {"vars": _batch_mode(t_mod, "update_variables", "variables", "_variables"),
+          "pars": _batch_mode(t_mod, "update_parameters", "parameters", "_parameters")}
+    facts["batch_editors"] = bm
     cls = _find(t_abs, "_Settings", ast.ClassDef)
     digests = {
         "_Settings": _digest(cls),
@@ -413,17 +479,17 @@ def extract_fit_facts() -> tuple[str, dict]:
     def wfact(k: str) -> str:
         w = wr[k]
         dl = {"rmse": "true"}.get(w["default_loss"], "false")
-        return f"mkWrapperFacts {w['copy_default']} {w['copy_guard']} {w['scale_default']} {w['routing']} {w['pack']} {dl} {w['default_residual']}"
+        return f"mkWrapperFacts {w['copy_default']} {w['copy_guard']} {w['scale_default']} {w['routing']} {w['pack']} {dl} {w['default_residual']} {w['pre_copy']}"
 
     text = (
-        "(* REGENERATED from src/mxlpy/fit/abstract.py, fit/routines.py, minimizers/_scipy.py by harness/c20_gen.py\n"
+        "(* REGENERATED from src/mxlpy/fit/abstract.py, fit/routines.py, minimizers/_scipy.py, model.py (batch editors) by harness/c20_gen.py\n"
         "   -- do not edit.  Unrecognised shapes yield *Unknown / false, which breaks C20_fit_facts_pinned. *)\n"
         "From Coq Require Import List QArith String.\nFrom Fit Require Import LossOps FitModel.\nImport ListNotations.\nOpen Scope string_scope.\n"
         "Definition gen_fit_facts : fit_facts :=\n"
         f"  mkFitFacts {s['args_unscaled']} {s['args_scaled']} {s['scale_shape']}\n"
         f"    ({rfact('steady')})\n    ({rfact('tc')})\n    ({rfact('proto')})\n"
         f"    ({wfact('steady')})\n    ({wfact('tc')})\n    ({wfact('proto')})\n"
-        f"    {sc['lo']} {sc['hi']} {sc['call']} {sc['pack']} {sc['pack_updates']}.\n"
+        f"    {sc['lo']} {sc['hi']} {sc['call']} {sc['pack']} {sc['pack_updates']} {bm['vars']} {bm['pars']}.\n"
         "Definition gen_source_digests : list (string * string) := [\n  "
         + ";\n  ".join(f'("{k}", "{v}")' for k, v in digests.items())
         + "].\n"
